@@ -30,7 +30,7 @@ LEVEL_TEXT = ("Real runs of lengths 1-12 with output periods 1-4 and all plug-in
               "time, release, forcing, [output iff step >= 0], tracker, ibm - each exactly once - and close exactly once per module that has one.")
 LEVEL_NOTE = "The two traces are recorded by different mechanisms (wrappers vs interpreter events) and must agree call for call; a run whose tracer saw zero anchored calls is inconclusive."
 RULE = ("case = (variant, steps, period, plug-in spelling, warm/cold, kill schedule). Non-trivial: at least 2 steps and a release after the first step or an IBM kill; distinct by parameters.")
-MANDATORY = ["plugin_file_name_with_a_dot", "warm_start_record_times_checked", "v1_user_gridforce_module", "v1_user_module_name_ending_in_ROMS", "no_particles_during_first_steps", "stock_scalar_values_checked", "plugin_section_with_module_only", "steps_parsed", "traces_agree", "plugin_relative", "plugin_absolute", "plugin_with_py", "plugin_subdir", "plugin_module_name", "decoy_present", "warm_start_runs",
+MANDATORY = ["two_models_alive_and_stepped_in_turn", "records_compared_with_the_solo_run", "plugin_file_name_with_a_dot", "warm_start_record_times_checked", "v1_user_gridforce_module", "v1_user_module_name_ending_in_ROMS", "no_particles_during_first_steps", "stock_scalar_values_checked", "plugin_section_with_module_only", "steps_parsed", "traces_agree", "plugin_relative", "plugin_absolute", "plugin_with_py", "plugin_subdir", "plugin_module_name", "decoy_present", "warm_start_runs",
              "output_plugin_runs", "forcing_plugin_runs", "coded_scalar_values_checked", "ibm_positions_checked", "kills_checked", "ibm_kills_everybody_present", "late_release_in_record", "close_calls_checked"]
 ASSUMPTIONS = ["state and time have no close by design; close is required exactly once only for modules that define one"]
 MIN_CASES_PER_PROCESS = 4  # several runs share one interpreter: state leaking between runs (module caches, shared defaults) becomes observable
@@ -49,6 +49,9 @@ def gen_cases(tier: str, seed: int) -> list[dict[str, Any]]:
         warm = bool(i % 4 == 3 and variant != "recout")
         cases.append(dict(idx=i, variant=variant, nsteps=int(rng.integers(1, 13)), period=int(rng.integers(1, 5)) if i % 2 else 1,
                           spelling=SPELLINGS[i % len(SPELLINGS)], warm=warm, seed=seed))
+    # two simulations alive in one process and stepped in turn: each keeps to its own protocol, state and forcing
+    for i in range(6 if tier == "quick" else 300):
+        cases.append(dict(kind="two_models", idx=i, seed=seed))
     # legacy (version 1) configuration files naming a user's own grid/forcing module in the gridforce section
     for i in range(8 if tier == "quick" else 400):
         cases.append(dict(kind="v1_gridforce", idx=i, seed=seed, nsteps=3 + i % 5))
@@ -175,9 +178,65 @@ def run_v1_gridforce(case: dict[str, Any], wd: Path) -> dict[str, Any]:
     return C.result(V, sit, {}, nontrivial=True, key=str(desc), sample=desc)
 
 
+def run_two_models(case: dict[str, Any], wd: Path) -> dict[str, Any]:
+    """Two Model objects built one after the other and stepped alternately write what each writes when it runs alone."""
+    from vmon import world as W  # noqa: PLC0415
+    from vmon.scenario import all_records, build_config, read_outputs, run_ladim, run_two_models_alive, write_yaml  # noqa: PLC0415
+
+    rng = C.rng_for(case["seed"], 192, case["idx"])
+    wd.mkdir(parents=True, exist_ok=True)
+    dt = 600
+    start = C.T0
+    V: list = []
+    desc = dict(kind="two_models", idx=case["idx"])
+    confs = []
+    for tag in ("a", "b"):
+        ns = int(rng.integers(4, 10))
+        sub = None if tag == "a" else [3, 12, 2, 10]  # the second simulation on a smaller subgrid of its own files
+        w = W.write_world(wd / f"world_{tag}", dict(imax=18, jmax=14, N=2, t0=str(tadd(start, -dt)), frames=[0, (ns + 3) * dt], files=[2],
+                                                    vel=dict(kind="const", u=float(rng.uniform(0.1, 0.4)), v=float(rng.uniform(-0.2, 0.2))),
+                                                    scalars=dict(temp=dict(kind="xyt", a=2.0 if tag == "a" else 9.0, b=0.5, c=-0.25, e=0.0))))
+        if tag == "a":  # the first simulation's particles are outside the area the second one loads
+            rows = [[start, 13.2 + 0.6 * k, 10.2 + 0.4 * k, 1.0] for k in range(3)] + [[str(tadd(start, 2 * dt)), 14.5, 11.0, 1.0]]
+        else:
+            rows = [[start, 5.0 + k, 4.0 + 0.5 * k, 1.0] for k in range(3)] + [[str(tadd(start, 2 * dt)), 7.5, 6.5, 1.0]]
+        run = dict(start=start, stop=str(tadd(start, ns * dt)), dt=dt, advection=["EF", "RK2", "RK4"][case["idx"] % 3], subgrid=sub, extra_forcing=["temp"],
+                   release=dict(columns=["release_time", "X", "Y", "Z"], rows=rows, header=True, file=f"release_{tag}.rls"),
+                   state=dict(instance_variables=dict(temp="float"), default_values=dict(temp=0.0)),
+                   output=dict(period=dt, filename=f"solo_{tag}.nc", instance=dict(pid="i4", X="f8", Y="f8", Z="f8", temp="f8")))
+        conf = build_config(run, wd, w)
+        write_yaml(conf, wd / f"solo_{tag}.yaml")
+        r0 = run_ladim(wd / f"solo_{tag}.yaml", cwd=wd)
+        if not r0.ok:
+            return C.result([], {}, {}, nontrivial=False, key=str(desc), sample=desc, void=True, note=f"solo run failed: {r0.exc}")
+        conf["output"]["filename"] = str(wd / f"pair_{tag}.nc")
+        write_yaml(conf, wd / f"pair_{tag}.yaml")
+        confs.append(conf)
+    res = run_two_models_alive(wd / "pair_a.yaml", wd / "pair_b.yaml", wd)
+    sit = {"two_models_alive_and_stepped_in_turn": 1}
+    if not res.ok:
+        V.append(C.viol(f"two simulations alive in one process, stepped in turn: {res.exc} (each of them runs alone)", tb=res.tb[-1200:], **desc))
+    else:
+        for tag in ("a", "b"):
+            solo = all_records(read_outputs([wd / f"solo_{tag}.nc"]))
+            pair = all_records(read_outputs([wd / f"pair_{tag}.nc"]))
+            if len(solo) != len(pair):
+                V.append(C.viol(f"simulation {tag}: {len(pair)} records when stepped in turn with another simulation, {len(solo)} when run alone", **desc))
+                continue
+            for x, y in zip(solo, pair):
+                same = x.time == y.time and len(x.pid) == len(y.pid) and np.all(x.pid == y.pid) and all(np.array_equal(x.vars[k], y.vars[k]) for k in ("X", "Y", "temp"))
+                sit["records_compared_with_the_solo_run"] = sit.get("records_compared_with_the_solo_run", 0) + 1
+                if not same:
+                    V.append(C.viol(f"simulation {tag}: record at {y.time} differs from the record the same simulation writes when it runs alone", **desc))
+                    break
+    return C.result(V[:3], sit, {}, nontrivial=True, key=str(desc), sample=desc)
+
+
 def run_case(case: dict[str, Any], wd: Path) -> dict[str, Any]:
     if case.get("kind") == "v1_gridforce":
         return run_v1_gridforce(case, wd)
+    if case.get("kind") == "two_models":
+        return run_two_models(case, wd)
     import ladim.out_netcdf as ON  # noqa: PLC0415
     import ladim.release as RL  # noqa: PLC0415
     import ladim.ROMS as RO  # noqa: PLC0415
